@@ -21,6 +21,8 @@ func main() {
 		pipeline()
 	case "forward":
 		forward(nil, nil)
+	case "respond":
+		respond()
 	default:
 		fmt.Fprintln(os.Stderr, "unknown subcommand", os.Args[1])
 		os.Exit(2)
